@@ -216,7 +216,16 @@ def call (name : String) (args : List Value) : BRes :=
         ret (.bool (numberLessEqual lo v && numberLessEqual v hi))
       else null
   | "between", _ => null
-  | "float", [a] => (match FloatConv.parseDecimal a.inspect with | some f => ret (.float f) | none => null)
+  | "float", [a] =>
+      (match FloatConv.parseDecimal a.inspect with
+       | some f => ret (.float f)
+       | none =>
+         -- strconv.ParseFloat also reads digit-separating underscores, hexadecimal floats and the words
+         -- inf / infinity / nan; the model has no parser for those forms and declines to answer there
+         let s := toLower a.inspect
+         let body := match s with | '+' :: r => r | '-' :: r => r | r => r
+         if s.any (· == '_') || s.any (· == 'x') || body == "inf".toList || body == "infinity".toList || body == "nan".toList
+         then { res := .unsupported } else null)
   | "float", _ => null
   | "getenv", [a] => ret (.str (if a.inspect == fixedEnvName then fixedEnvValue else []))
   | "getenv", _ => null
